@@ -26,4 +26,6 @@ for f in sorted(os.listdir(ed)):
 json.dump({"Replace": rep}, open(os.path.join(b, "overlay.json"), "w"), indent=1)
 PY
 cd "$REPO"
-go build -modfile="$B/go.mod" -overlay="$B/overlay.json" -o "$B/verifh" github.com/nelhage/taktician/cmd/internal/verifh
+OUT="${VERIF_HARNESS_OUT:-$B/verifh}"
+go build -modfile="$B/go.mod" -overlay="$B/overlay.json" -o "$OUT.tmp$$" github.com/nelhage/taktician/cmd/internal/verifh
+mv -f "$OUT.tmp$$" "$OUT"
